@@ -162,7 +162,7 @@ def run_scenarios(scens, servertype, timeout, seed, validator_install="class"):
             replies = rc.drain()
             first, text = classify_first(replies, ser)
             reason = bool(text)
-            if scen["validator"].startswith("raise:") and scen["first"] in ("connect_valid", "connect_unknown_object") and text is not False:
+            if scen["validator"].startswith("raise:") and "Empty" not in scen["validator"] and scen["first"] in ("connect_valid", "connect_unknown_object") and text is not False:
                 reason = "token-7731" in str(text)      # the validator's own message must be in the failure text
             tr = list(lab.log)
             tr.append({"e": "Snap", "c": rc.cid, "srvclosed": rc.server_closed(), "first": first, "reason": bool(reason),
